@@ -54,7 +54,8 @@ REQUIRED_THEOREMS = ["no_handler_before_hsOk", "no_cleartext_on_dtls_session", "
                      "server_key_history_independent", "accepts_ok_key",
                      "queued_con_one_nack_on_failure", "ledger_before_established",
                      "queued_first_flush_in_order_once_on_success", "icmp_notification_is_extra",
-                     "newClient_start", "endpoint_start", "newClientTls_start", "accept_start"]
+                     "newClient_start", "endpoint_start", "newClientTls_start", "accept_start",
+                     "queued_delivered_in_order_once_on_success", "first_transmissions_in_order"]
 RULE = ("one line = one whole scenario with the REAL GnuTLS on both sides in one process (virtual clock for libcoap and GnuTLS, "
         "scripted wire): a server context with a DTLS endpoint configured by coap_context_set_psk2 (default key, identity table, "
         "hint, SNI table) and a client session from coap_new_client_session_psk2 (identity, key, hint callback, SNI); credential "
@@ -344,6 +345,14 @@ def generate(ctx, escalate=False):
             f = e.split(":")
             if len(f) == 3 and f[0] != cfg.get("sni") and f[2] != "-":
                 out.append("dtls " + " ".join(list(cred[1]) + ["pre=%s:=:%s" % (f[2], f[0]), "q=C"]))
+    # ICMP errors reported to the client session (coap_session_disconnected_lkd(COAP_NACK_ICMP_ISSUE): advisory, touches neither
+    # the delay queue nor the state) while requests are queued behind the handshake; not in block mode (the lg_crcv request IS
+    # reported there: Props/C19.lean icmp_notification_is_extra)
+    icmps = ["0", "0x2", "1", "2x3", "3", "0x4", "1x2"]
+    for k, cred in enumerate(CREDS):
+        for j, q in enumerate(["C", "CC", "NC", "CNC"] if ctx.thorough() else [["C", "CC", "NC", "CNC"][k % 4]]):
+            out.append("dtls " + " ".join(list(cred[1]) + ["q=" + q, "icmp=" + icmps[(k + j) % len(icmps)]]))
+        out.append("dtls " + " ".join(list(cred[1]) + ["q=C", "icmp=" + icmps[(k + 3) % len(icmps)], "rel=%d" % [2, 6, 12][k % 3]]))
     n = 40000 if ctx.thorough() else 3000
     if escalate:
         n *= 2
@@ -427,7 +436,7 @@ def phases(inp, isegs, expect_all):
     if [g[0] for g in groups] != ["p"] * len(pres) + ["c"]:
         raise ValueError("client sessions seen %s, expected %d earlier ones and the main one" % ([g[0] for g in groups], len(pres)))
     out = []
-    base = [w for w in words if w.split("=")[0] not in ("pre", "q", "f", "inj", "rel", "idle")]
+    base = [w for w in words if w.split("=")[0] not in ("pre", "q", "f", "inj", "rel", "idle", "icmp")]
     main = dict(w.split("=", 1) for w in base)
     for (k, i, sn), g, e in zip(pres, groups, exp_pre):
         w = [x for x in base if x.split("=")[0] not in ("ck", "ci", "sni")]
